@@ -160,8 +160,8 @@ func (j *rootJudge) judge(x ref.Bits, cube bool, wantExact *big.Int, wantExactEx
 	if xn.Exp <= ref.MinExp+40 && ref.NumDigits(xn.Coef) < 30 {
 		j.sh.Cell(op + "/subnormal-argument")
 	}
-	if !cube {
-		// distance of the true root from the nearest rounding midpoint, in ulps (approximate, evidence only)
+	if !cube && j.sh.Evals%8 == 0 {
+		// distance of the true root from the nearest rounding midpoint, in ulps (approximate, evidence only; sampled)
 		xf := new(big.Float).SetPrec(400).SetInt(xn.Coef)
 		e := xn.Exp
 		if e%2 != 0 {
@@ -325,6 +325,27 @@ func runC17(c *Ctx) {
 		n := c.N(60000, 600000)
 		for i := 0; i < n; i++ {
 			j.genAndJudge(r, i)
+		}
+		// systematic sweep of the leading significand 1.00000 .. 9.99999 (internal scaling thresholds of the
+		// iteration depend on the leading digits only); exponent class, sign and low digits vary per case
+		step := c.Stride(2, 2)
+		k := 0
+		for v := 100000 + (sh.ID*7)%step; v <= 999999; v += step {
+			k++
+			if k%c.Shards != sh.ID {
+				continue
+			}
+			cc := big.NewInt(int64(v))
+			if pad := r.Pick(0, 0, 3, 10, 28); pad > 0 {
+				cc.Mul(cc, ref.Pow10(pad))
+				if r.Bool() {
+					cc.Add(cc, r.BigBelow(ref.Pow10(pad)))
+				}
+			}
+			e := r.Pick(r.Range(-40, 40), r.Range(ref.MinExp, ref.MaxExp-34))
+			j.sh.Cell("sweep/significand")
+			j.judge(ref.Encode(r.Bool(), cc, e), true, nil, 0)
+			j.judge(ref.Encode(false, cc, e), false, nil, 0)
 		}
 	})
 	c.Col.Res.Targets = append(c.Col.Res.Targets,
